@@ -107,10 +107,13 @@ GRAMMAR_CODE = {
     'expr': ['zz', 'a + b', 'a if b else c', 'lambda q: q', '(yield)', 'a, b', '(c, d)', 'f(x)\n.g', '[1,\n 2]',
              'not a', 'a or b', 'x := 1', 'await w', '-a ** b', 'a < b < c', '"s" "t"', '*st', '{**d}', '(i for i in j)',
              'a.b[c]', 'f"{x}"', '1 .real', 'yield z', 'yield from z', '(\n a\n)', 'a # c\n+ b', '"""m\nl"""',
-             'é, ü', '"日本", z', 'ñ if ü else é', '"é" "ü"', 'é.ü(ñ)', 'lambda é: "日本"', 'é\n, ü', '[é,\n "日本"]'],
+             'é, ü', '"日本", z', 'ñ if ü else é', '"é" "ü"', 'é.ü(ñ)', 'lambda é: "日本"', 'é\n, ü', '[é,\n "日本"]',
+             # irregular continuation-line indentation (deeper, then shallower than the elements): exercises re-indentation of put code
+             '[\n        a,\n        (b,\n  c),\n]', '(a,\n            b,\n c)', 'f(\n            x,\n  y)', '{\n      k: v,\n   **w,\n          j: u}',
+             '[\n        a,\n        (b,\n  c),\n], [\n     d,\n e]', 'f(\n        a)(\n   b)'],
     'expr1': ['nm', 'a.b', 'f(x)', '(a + b)', 'a[0]', '(lambda: 0)', 'a if b else c', 'x or y', 'await z', '-n', '[e]'],
     'dictval': ['vv', 'a + b', 'lambda: 0', 'a if b else c', '(x, y)'],
-    'target': ['tgt', 't.attr', 't[0]', '(p, q)', '[p, *q]', 'é, ü', 'ñ.é'],
+    'target': ['tgt', 't.attr', 't[0]', '(p, q)', '[p, *q]', 'é, ü', 'ñ.é', '(tg)', '((tg))', '(\n   p,\n q)'],
     'starred': ['*s2', '*(a or b)', 'plain'],
     'stmt': ['pass', 'x = 1', 'if c:\n    d\nelse:\n    e', 'for i in j: pass', 'def g(): return 1', 'return', 'a; b',
              'with a as b:\n    # cmt\n    pass', 'class K: pass', '@d\ndef h(a=1): pass', 'try: pass\nfinally: pass',
